@@ -117,7 +117,47 @@ class Rd:
             f()
 
 
+def whole_frames(stream):
+    """the frames of a byte stream that is exactly a sequence of complete MQTT frames: [(first byte, body)], else None"""
+    out, i = [], 0
+    while i < len(stream):
+        first, n, mul, j = stream[i], 0, 1, i + 1
+        while True:
+            if j >= len(stream) or j - i > 4:
+                return None
+            n += (stream[j] & 0x7f) * mul
+            mul *= 128
+            j += 1
+            if stream[j - 1] & 0x80 == 0:
+                break
+        if j + n > len(stream):
+            return None
+        out.append((first, stream[j:j + n]))
+        i = j + n
+    return out
+
+
 class Dec3Part(DecPart):
+    def py_oracle(self, case, obs):
+        v = DecPart.py_oracle(self, case, obs)
+        if not v.startswith("1"):
+            return v
+        # "a frame that carries an unknown reason code is reported as an error": MQTT 3.1.1 SUBACK return codes are
+        # 0, 1, 2 and 0x80 -- read off the bytes of the case, which must be a sequence of whole frames; an error
+        # anywhere in the observation (this frame or an earlier one) is an acceptable outcome
+        c = parse_fields(case)
+        try:
+            stream = [int(x) for x in c[2]] if len(c) > 2 else []
+        except ValueError:
+            return v
+        if any(it and it[0] == "4" for it in parse_fields(obs)):
+            return v
+        frames = whole_frames(stream)
+        if frames and any(first == 0x90 and len(body) > 2 and any(b not in (0, 1, 2, 0x80) for b in body[2:])
+                          for (first, body) in frames):
+            return "0,15"
+        return v
+
     def parse_publish_item(self, it):
         # 2, rl, dup retain qos str(topic) opt(id) payload_size, plen, bytes
         try:
@@ -380,6 +420,7 @@ DEC_CLAUSES = {
     "10": "a non-final payload piece is smaller than min_chunk_size",
     "14": "the decoder keeps producing items without consuming input (an endless stream of empty payload pieces)",
     "13": "a frame whose Remaining Length exceeds the configured inbound maximum was delivered instead of rejected",
+    "15": "an MQTT 3.1.1 SUBACK carrying a return code other than 0, 1, 2, 0x80 was accepted (unknown reason code)",
 }
 
 
